@@ -7,9 +7,17 @@ Spec oracle on the implementation's observed result.
                                                     <min bits> <max bits> <sum bits> | <out token per value>…
         out token: `n` (NaN/Inf ignored) | `z` (zero) | `sb:ib:sa:ia:r`
   vexpo <gen> <maxSize> <maxScale> => ok|err          vhist <gen> <bounds,> => ok|err
+  path  <gen> <kind> <i|f> <inst bounds,|-> <reader agg> <view -|n|c> <view agg> <d|c> | <values 1,> | <values 2,>
+        => <err 0|1> none | S | G | H <bounds,> <counts,> <count> <sum> <min|-> <max|-> |
+           E <scale> <posOff> <pos,> <negOff> <neg,> <zero> <count> <min|-> <max|-> <sum>
+  coll  <gen> <d|c> <maxSize> <maxScale> <limit> <noMinMax> <noSum> | <op>… => <C <n> <point>×n>… | <out token per m op>…
+        op: <attr>:f<bits> | c | n ; point (destination slot order): <attr> <scale> <posOff> <pos,> <negOff> <neg,>
+        <zero> <count> <min bits|-> <max bits|-> <sum bits>
 -/
 import Otel.Base.Wire
 import Otel.C07.Spec
+import Otel.C07.Collect
+import Otel.C07.Path
 open Otel Otel.Wire Otel.C07
 
 namespace Otel.C07.Drv
@@ -203,6 +211,239 @@ def stepExpo (budget : Nat) (inp obs : List String) : Nat × Option Verdict :=
     | _, _, _, _ => (budget, none)
   | _ => (budget, none)
 
+
+/-! ## `coll`: several attribute sets, several collections into one re-used destination -/
+
+/-- an observed point; `sum = none` when the reported float sum is not finite -/
+structure OPt where
+  attr : Nat
+  scale : Int
+  pos : Buckets
+  neg : Buckets
+  zero : Nat
+  count : Nat
+  min : Option Val
+  max : Option Val
+  sum : Option Val
+
+def parseOptF (s : String) : Option (Option Val) :=
+  if s == "-" then some none else (parseF s).bind (fun b => (decode b).map some)
+
+def parsePoint : List String → Option OPt
+  | [a, sc, po, pc, no, nc, z, c, mn, mx, sm] => do
+    let a ← parseNat a
+    let sc ← parseInt sc
+    let po ← parseInt po
+    let pc ← parseCsvNat pc
+    let no ← parseInt no
+    let nc ← parseCsvNat nc
+    let z ← parseNat z
+    let c ← parseNat c
+    let mn ← parseOptF mn
+    let mx ← parseOptF mx
+    let sm ← parseF sm
+    pure ⟨a, sc, ⟨po, pc⟩, ⟨no, nc⟩, z, c, mn, mx, decode sm⟩
+  | _ => none
+
+def parsePoints : Nat → List String → Option (List OPt × List String)
+  | 0, r => some ([], r)
+  | n + 1, r => do
+    let p ← parsePoint (r.take 11)
+    let (ps, rest) ← parsePoints n (r.drop 11)
+    pure (p :: ps, rest)
+
+/-- the `C <n> <point>×n` groups; fuel = number of tokens -/
+def parseReports : Nat → List String → Option (List (List OPt))
+  | _, [] => some []
+  | 0, _ => none
+  | f + 1, "C" :: n :: r => do
+    let n ← parseNat n
+    let (ps, rest) ← parsePoints n r
+    let more ← parseReports f rest
+    pure (ps :: more)
+  | _, _ => none
+
+inductive ROp
+  | meas (a : Nat) (bits : Nat)
+  | collect
+  | fresh
+
+def parseROp (s : String) : Option ROp :=
+  if s == "c" then some .collect
+  else if s == "n" then some .fresh
+  else match s.splitOn ":" with
+    | [a, f] => do
+      let a ← parseNat a
+      let b ← parseF f
+      pure (.meas a b)
+    | _ => none
+
+/-- fill the iteration order of every collect with the attribute order of the observed report -/
+def fillOps : List ROp → List (List OPt) → Option (List Op)
+  | [], [] => some []
+  | .meas a b :: r, reps => (fillOps r reps).map (Op.meas a (decode b) :: ·)
+  | .fresh :: r, reps => (fillOps r reps).map (Op.fresh :: ·)
+  | .collect :: r, rep :: reps => (fillOps r reps).map (Op.collect (rep.map (·.attr)) :: ·)
+  | _, _ => none
+
+/-- min/max/sum clauses for one observed point with the recorded values `rv` -/
+def extremaOK2 (noMinMax noSum : Bool) (rv : List Val) (o : OPt) : Bool × Bool :=
+  let ps := partialSums (0, 0) rv
+  let exact := noSum || ps.all representable
+  let mm :=
+    if noMinMax then o.min.isNone && o.max.isNone
+    else match o.min, o.max with
+      | some mn, some mx =>
+        if rv.isEmpty then mn == maxFloat && mx == minFloat
+        else rv.contains mn && rv.all (fun v => !v.lt mn) && rv.contains mx && rv.all (fun v => !mx.lt v)
+      | _, _ => false
+  let sm :=
+    if noSum then (o.sum.map (·.mant)) == some 0
+    else !exact || (match o.sum with
+                    | some s => dyEq s.toDy (ps.getLastD (0, 0))
+                    | none => false)
+  (mm && sm, exact)
+
+structure PtVerdict where
+  structural : Bool
+  sizeStrict : Bool
+  sizeTol : Bool
+  exact : Bool
+
+/-- the per-point oracle of `expo` lines, for the (value, out) pairs of the point's attribute set -/
+def pointOracle (maxSize : Nat) (maxScale : Int) (noMinMax noSum : Bool) (pairs : List (Val × Out)) (o : OPt) :
+    PtVerdict :=
+  let outs := pairs.map (·.2)
+  let vals := pairs.map (fun p => some p.1)
+  let obsP : Expo := ⟨o.scale, o.pos, o.neg, o.zero, o.count, maxFloat, minFloat, (0, 0)⟩
+  let rv := recordedVals vals outs
+  let (ex, exact) := extremaOK2 noMinMax noSum rv o
+  let structural :=
+    Spec.countOK obsP && Spec.scaleOK maxScale obsP && Spec.chainOK maxScale outs o.scale &&
+    Spec.placedOK false o.scale outs o.pos && Spec.placedOK true o.scale outs o.neg &&
+    Spec.tallyOK outs obsP && Spec.dropsOK maxSize [] outs && ex
+  { structural := structural
+    sizeStrict := Spec.sizeOK maxSize obsP
+    sizeTol := decide (o.pos.counts.length ≤ maxSize + incoherentCount false outs) &&
+               decide (o.neg.counts.length ≤ maxSize + incoherentCount true outs)
+    exact := exact }
+
+abbrev Live := List (Nat × List (Val × Out))
+
+def liveAdd : Live → Nat → Val × Out → Live
+  | [], a, x => [(a, [x])]
+  | (k, l) :: r, a, x => if k == a then (k, l ++ [x]) :: r else (k, l) :: liveAdd r a x
+
+/-- reference semantics of the attribute map with the cardinality limit (independent of the model): the live
+attribute sets since the last reset; a new set beyond the limit is folded into the overflow set 0 -/
+def effAttr (limit : Nat) (live : Live) (a : Nat) : Nat :=
+  if limit > 0 && !(live.any (·.1 == a)) && decide (live.length + 1 ≥ limit) then 0 else a
+
+/-- oracle pass: returns (all structural ok, all sizes strict, all sizes tolerable, exactness flags per report) -/
+def oraclePass (delta : Bool) (maxSize : Nat) (maxScale : Int) (limit : Nat) (noMinMax noSum : Bool) :
+    List ROp → List Out → List (List OPt) → Live → Bool × Bool × Bool × List (List Bool) →
+    Bool × Bool × Bool × List (List Bool)
+  | [], [], [], _, acc => acc
+  | .meas a b :: r, o :: os, reps, live, acc =>
+    match decode b, o with
+    | none, .skipped => oraclePass delta maxSize maxScale limit noMinMax noSum r os reps live acc
+    | some v, .zero =>
+      if v.mant != 0 then (false, acc.2) else
+      oraclePass delta maxSize maxScale limit noMinMax noSum r os reps (liveAdd live (effAttr limit live a) (v, o)) acc
+    | some v, .val neg _ _ _ _ _ =>
+      if v.mant == 0 || neg != v.neg then (false, acc.2) else
+      oraclePass delta maxSize maxScale limit noMinMax noSum r os reps (liveAdd live (effAttr limit live a) (v, o)) acc
+    | _, _ => (false, acc.2)
+  | .fresh :: r, os, reps, _, acc => oraclePass delta maxSize maxScale limit noMinMax noSum r os reps [] acc
+  | .collect :: r, os, rep :: reps, live, (s, st, tol, fl) =>
+    let attrs := rep.map (·.attr)
+    let permOK := attrs.length == live.length && attrs.eraseDups.length == attrs.length &&
+      attrs.all (fun a => live.any (·.1 == a))
+    let vs := rep.map (fun o => pointOracle maxSize maxScale noMinMax noSum
+      (((live.find? (·.1 == o.attr)).map (·.2)).getD []) o)
+    let acc' := (s && permOK && vs.all (·.structural), st && vs.all (·.sizeStrict), tol && vs.all (·.sizeTol),
+      fl ++ [vs.map (·.exact)])
+    oraclePass delta maxSize maxScale limit noMinMax noSum r os reps (if delta then [] else live) acc'
+  | _, _, _, _, acc => (false, acc.2)
+
+def pointAgrees (m : PView) (o : OPt) (exact : Bool) : Bool :=
+  m.attr == o.attr && m.count == o.count && m.scale == o.scale && m.zero == o.zero && m.pos == o.pos &&
+  m.neg == o.neg && m.min == o.min && m.max == o.max &&
+  (!exact || (match o.sum with
+              | some s => dyEq m.sum s.toDy
+              | none => false))
+
+def zipAll3 {α β γ : Type} (f : α → β → γ → Bool) : List α → List β → List γ → Bool
+  | [], [], [] => true
+  | a :: as, b :: bs, c :: cs => f a b c && zipAll3 f as bs cs
+  | _, _, _ => false
+
+def addTag (tags : List String) (t : String) : List String := if tags.contains t then tags else t :: tags
+
+/-- branch tags of one model step (state before the step) -/
+def collTags (c : Cfg) (st : AggSt) (op : Op) (tags : List String) : List String :=
+  match op with
+  | .fresh => addTag tags "fresh-agg"
+  | .meas a (some _) =>
+    let tags := if limitAttr c.limit st.vals a != a then addTag tags "limit-overflow" else tags
+    if (lookupA st.vals (limitAttr c.limit st.vals a)).isNone then addTag tags "new-attr" else tags
+  | .meas _ none => addTag tags "skip"
+  | .collect order =>
+    let pts := inOrder st.vals order
+    let n := pts.length
+    let old := st.dest.vis ++ st.dest.hid
+    let tags := addTag tags (if c.delta then "collect-delta" else "collect-cumulative")
+    let tags := if n == 0 then addTag tags "collect-empty" else tags
+    let tags := if st.dest.cap < n then addTag tags "dest-realloc"
+                else if n > st.dest.vis.length then addTag tags "dest-unhide"
+                else if n < st.dest.vis.length then addTag tags "dest-shrink" else addTag tags "dest-same"
+    let stale := decide (st.dest.cap ≥ n) && (List.zip (old.take n) pts).any (fun (d, av) =>
+      (av.2.pos.counts.isEmpty && !d.pos.vis.isEmpty) || (av.2.neg.counts.isEmpty && !d.neg.vis.isEmpty))
+    let tags := if stale then addTag tags "empty-side-over-stale" else tags
+    let moved := decide (st.dest.cap ≥ n) && (List.zip (old.take n) pts).any (fun (d, av) => d.attr != av.1)
+    if moved then addTag tags "slot-other-attr" else tags
+
+def stepColl (budget : Nat) (inp obs : List String) : Nat × Option Verdict :=
+  match inp with
+  | "coll" :: _ :: dc :: ms :: sc :: lim :: nmm :: ns :: "|" :: opToks =>
+    let (o1, o2) := (obs.takeWhile (· ≠ "|"), (obs.dropWhile (· ≠ "|")).drop 1)
+    match parseNat ms, parseInt sc, parseNat lim, opToks.mapM parseROp, parseReports (o1.length + 1) o1 with
+    | some maxSize, some maxScale, some limit, some rops, some reps =>
+      let measBits := rops.filterMap (fun o => match o with
+        | .meas _ b => some b
+        | _ => none)
+      let negs := measBits.map (fun b => decide (b ≥ 2 ^ 63))
+      match (List.zip negs o2).mapM (fun (n, t) => parseOut n t), fillOps rops reps with
+      | some outs, some ops =>
+        if o2.length != measBits.length then (budget, none) else
+        let cfg : Cfg := ⟨dc == "d", maxSize, maxScale, limit, nmm == "1", ns == "1"⟩
+        let L := lookup (mkTable (measBits.map decode) outs)
+        let (fin, tags) := ops.foldl (fun (st, tags) op => (aggStep L cfg st op, collTags cfg st op tags))
+          (AggSt.init, ([] : List String))
+        let (structural, sizeStrict, sizeTol, flags) :=
+          oraclePass cfg.delta maxSize maxScale limit cfg.noMinMax cfg.noSum rops outs reps [] (true, true, true, [])
+        let agree := fin.outs == outs &&
+          zipAll3 (fun mr orp fl => zipAll3 pointAgrees mr orp fl) fin.reports reps flags
+        let (places, budget', _) := classifyAll measBits outs budget [] 0
+        let anyBad := places.contains .bad
+        let anyF14 := places.contains .f14
+        let spec :=
+          if !structural || anyBad then "FAIL"
+          else if !sizeStrict then (if sizeTol && anyF14 then "KNOWN:F14" else "FAIL")
+          else if anyF14 then "KNOWN:F14" else "ok"
+        let tags := if anyF14 then "F14" :: tags else tags
+        let tags := if cfg.noMinMax then addTag tags "noMinMax" else tags
+        let tags := if cfg.noSum then addTag tags "noSum" else tags
+        let nontrivial := decide (reps.length ≥ 2) && decide ((outs.countP Spec.isRecorded) ≥ 2)
+        (budget', some { agree := agree, spec := spec, nontrivial := nontrivial,
+                         branches := if tags.isEmpty then "-" else ",".intercalate tags.reverse,
+                         model := " ".intercalate (fin.reports.map (fun r =>
+                           s!"C{r.length}:" ++ ";".intercalate (r.map (fun p =>
+                             s!"{p.attr}/{p.scale}/{showB p.pos}/{showB p.neg}/{p.zero}/{p.count}")))) })
+      | _, _ => (budget, none)
+    | _, _, _, _, _ => (budget, none)
+  | _ => (budget, none)
+
 def showHist : Option Hist → String
   | none => "N"
   | some h => s!"P {csv h.counts} {h.count} {h.total} {h.min} {h.max}"
@@ -226,6 +467,96 @@ def stepHist (inp obs : List String) : Option Verdict :=
              branches := if tags.isEmpty then "-" else ",".intercalate tags, model := showHist m }
     | _, _, _, _, _, _, _, _ => none
   | _, _ => none
+
+
+/-! ## `path`: the configuration paths through the public API -/
+
+def parseAgg (s : String) : Option (Option ACfg) :=
+  match s.splitOn ":" with
+  | ["-"] => some none
+  | ["d"] => some (some .dflt)
+  | ["x"] => some (some .drop)
+  | ["h", b, n] => (parseCsvInt b).map (fun b => some (.hist b (n == "1")))
+  | ["e", ms, sc, n] => do
+    let ms ← parseInt ms
+    let sc ← parseInt sc
+    pure (some (.expo ms sc (n == "1")))
+  | _ => none
+
+def parseOptInt (s : String) : Option (Option Int) :=
+  if s == "-" then some none else (parseInt s).map some
+
+/-- placement against the exact index, independent of the run: bucket `k` of the sign holds exactly the values
+of that sign whose exact index at the reported scale is `start + k`, and every such index is inside the window -/
+def placedExact (neg : Bool) (s : Int) (vs : List Val) (b : Buckets) : Bool :=
+  let idxs := (vs.filter (fun v => v.mant != 0 && v.neg == neg)).map (Spec.exactIdx s)
+  idxs.all (fun i => decide (b.start ≤ i) && decide (i < b.start + (b.counts.length : Int))) &&
+  (List.range b.counts.length).all (fun k => b.counts.getD k 0 == idxs.count (b.start + (k : Int)))
+
+def stepPath (inp obs : List String) : Option Verdict :=
+  match inp with
+  | ["path", _, kd, _, inst, rd, vk, va, tp, "|", v1, "|", v2] =>
+    match (parseNat kd).bind Kind.ofCode, (if inst == "-" then some none else (parseCsvInt inst).map some),
+          parseAgg rd, parseAgg va, parseCsvInt v1, parseCsvInt v2 with
+    | some k, some instB, some sel, some vagg, some vals1, some vals2 =>
+      let vkind : ViewKind := if vk == "n" then .newView else if vk == "c" then .custom else .none
+      let (res, err) := resolve k instB sel vkind vagg
+      let vals := if tp == "d" then vals2 else vals1 ++ vals2
+      let errOK := obs.head? == some (if err then "1" else "0")
+      let o := obs.drop 1
+      let tagK := s!"kind{kd}"
+      let tagV := s!"view-{vk}"
+      let tagI := if instB.isSome then (if err then ["inst-bounds-invalid"] else ["inst-bounds"]) else []
+      let tagR := if sel.isSome then ["reader-sel"] else []
+      let mk (agree ok : Bool) (tag : String) (model : String) : Option Verdict :=
+        some { agree := agree && errOK, spec := if ok then "ok" else "FAIL", nontrivial := decide (vals.length ≥ 2),
+               branches := ",".intercalate ([tag, tagK, tagV] ++ tagI ++ tagR), model := model }
+      match res with
+      | .drop => mk (o == ["none"]) (o == ["none"]) "drop" "none"
+      | .sum => mk (o == ["S"] || o == ["none"]) (o == ["S"] || o == ["none"]) "sum" "S"
+      | .lastValue => mk (o == ["G"] || o == ["none"]) (o == ["G"] || o == ["none"]) "lastValue" "G"
+      | .hist b nmm ns =>
+        if vals.isEmpty then mk (o == ["none"]) (o == ["none"]) "hist-empty" "none" else
+        match o with
+        | ["H", ob, oc, ocount, osum, omin, omax] =>
+          match parseCsvInt ob, parseCsvNat oc, parseNat ocount, parseInt osum, parseOptInt omin, parseOptInt omax with
+          | some sorted, some counts, some count, some sum, some mn, some mx =>
+            let m := (histRun b vals).map (histExport nmm ns)
+            let agree := m == some (counts, count, sum, mn, mx) && sortBounds b == sorted
+            -- oracle on the observed point: the clauses of the statement, flags applied
+            let obsH : Hist := ⟨counts, count, if ns then vals.sum else sum, mn.getD (Spec.minList vals),
+                                mx.getD (Spec.maxList vals)⟩
+            let ok := Spec.histOK b sorted vals (some obsH) && (!ns || sum == 0) && (mn.isNone == nmm) &&
+              (mx.isNone == nmm) &&
+              (vkind == .custom || Spec.isSorted b && b.eraseDups.length == b.length && sorted == b)
+            mk agree ok (if vkind == .custom && sortBounds b != b then "hist-unsorted-custom" else "hist")
+              (showHist (histRun b vals))
+          | _, _, _, _, _, _ => none
+        | _ => mk false false "hist" (showHist (histRun b vals))
+      | .expo ms sc nmm ns =>
+        if vals.isEmpty then mk (o == ["none"]) (o == ["none"]) "expo-empty" "none" else
+        match o with
+        | ["E", oscale, opo, opc, ono, onc, ozero, ocount, omin, omax, osum] =>
+          match parseInt oscale, parseInt opo, parseCsvNat opc, parseInt ono, parseCsvNat onc, parseNat ozero,
+                parseNat ocount, parseOptInt omin, parseOptInt omax, parseInt osum with
+          | some scale, some po, some pc, some no, some nc, some zc, some count, some mn, some mx, some sum =>
+            let vs := vals.map ofInt
+            let pm := (run Spec.exactIdx ms.toNat sc (vs.map some)).1
+            let pv := exportPoint nmm ns 0 pm
+            let agree := pv.scale == scale && pv.pos == ⟨po, pc⟩ && pv.neg == ⟨no, nc⟩ && pv.zero == zc &&
+              pv.count == count && pv.min == mn.map ofInt && pv.max == mx.map ofInt && dyEq pv.sum (sum, 0)
+            let obsP : Expo := ⟨scale, ⟨po, pc⟩, ⟨no, nc⟩, zc, count, maxFloat, minFloat, (0, 0)⟩
+            let ok := Spec.countOK obsP && Spec.scaleOK sc obsP && Spec.sizeOK ms.toNat obsP &&
+              decide (-10 ≤ scale) && decide (scale ≤ 20) && count == vals.length &&
+              zc == vals.countP (· == 0) && placedExact false scale vs ⟨po, pc⟩ && placedExact true scale vs ⟨no, nc⟩ &&
+              (if ns then sum == 0 else sum == vals.sum) &&
+              (if nmm then mn.isNone && mx.isNone
+               else mn == some (Spec.minList vals) && mx == some (Spec.maxList vals))
+            mk agree ok "expo" s!"{pm.scale} {showB pm.pos} {showB pm.neg} {pm.zero} {pm.count}"
+          | _, _, _, _, _, _, _, _, _, _ => none
+        | _ => mk false false "expo" "-"
+    | _, _, _, _, _, _ => none
+  | _ => none
 
 def stepValid (inp obs : List String) : Option Verdict :=
   match inp, obs with
@@ -255,7 +586,9 @@ def stepLine (budget : Nat) (toks : List String) : Nat × Option Verdict :=
   let (inp, obs) := splitObs toks
   match inp with
   | "expo" :: _ => let (b, v) := stepExpo (budget + 10) inp obs; (b, v)
+  | "coll" :: _ => let (b, v) := stepColl (budget + 10) inp obs; (b, v)
   | "hist" :: _ => (budget, stepHist inp obs)
+  | "path" :: _ => (budget, stepPath inp obs)
   | _ => (budget, stepValid inp obs)
 
 end Otel.C07.Drv
